@@ -251,6 +251,175 @@ def run (st : TState) : List (Int × Out Int) → List (Out Bool × TState)
 def runWith (nextOf : Int → Out Int) (st : TState) (arrivals : List Int) : List (Out Bool × TState) :=
   run st (arrivals.map fun a => (a, nextOf a))
 
+/-! ### the repaired algorithm (the `fix:` patch of `time.rs`)
+
+`codeFixed` selects which algorithm the correspondence check runs the model of: `false` = the code
+as it is (`getNextTime`, `schedule`, `step`), `true` = the repaired code (`getNextTimeFixed`,
+`scheduleFixed`, `stepFixed`). The theorems are stated about the named functions, so they hold for
+either value of the flag. -/
+def codeFixed : Bool := true
+
+/-- "never roll": 9999-12-31T23:59:59Z, returned when the schedule is not representable -/
+def FAR : Int := 253402300799
+
+/-- what chrono tells the repaired code about `current` and about local times -/
+structure Env where
+  /-- naive local seconds of `current` (floor) -/
+  L : Int
+  /-- UTC seconds of `current` (floor) -/
+  now : Int
+  /-- `NaiveDate::from_ymd_opt(y, mo, d).and_hms_opt(h, mi, s)` as naive local seconds -/
+  naiveOf : CivilTime → Option Int
+  /-- `Local.from_local_datetime` of naive local seconds -/
+  mkL : Int → LocalResult
+
+def inI64 (x : Int) : Bool := decide (I64_MIN ≤ x ∧ x ≤ I64_MAX)
+
+/-- the closure `increment`: `n.max(1)`, with modulation `n.checked_sub(field % n)` -/
+def incFixed (n field : Int) (modulate : Bool) : Option Int :=
+  let n := max n 1
+  if modulate then
+    let v := n - Int.tmod field n
+    if inI64 v then some v else none
+  else some n
+
+/-- `TimeTrigger::span(count, unit_secs)`: `checked_mul`, then `secs.abs()` (which panics for
+`i64::MIN` in an overflow-checked build), the chrono range, `Duration::seconds` -/
+def spanFixed (count unitSecs : Int) : Out (Option Int) :=
+  let s := count * unitSecs
+  if ¬ inI64 s then .ok none
+  else if s = I64_MIN then .panic "arith"
+  else if s > DUR_MAX ∨ s < -DUR_MAX then .ok none
+  else .ok (some s)
+
+/-- `TimeTrigger::resolve_after`: the occurrence of a local time after `current`; a local time in
+a DST gap is moved forward in 15-minute steps (`fuel` = remaining loop iterations) -/
+def resolveAfter (mkL : Int → LocalResult) (now : Int) : Nat → Int → Option Int
+  | 0, _ => none
+  | fuel + 1, L =>
+    match mkL L with
+    | .single t => some t
+    | .ambiguous a b => some (if a > now then a else b)
+    | .none => if DT_MIN ≤ L + 900 ∧ L + 900 ≤ DT_MAX then resolveAfter mkL now fuel (L + 900) else none
+
+/-- the closure `first_of_month` -/
+def firstOfMonth (e : Env) (months : Int) : Option Int :=
+  let year := months / 12
+  if I32_MIN ≤ year ∧ year ≤ I32_MAX then
+    match e.naiveOf ⟨year, months % 12 + 1, 1, 0, 0, 0⟩ with
+    | some lt => resolveAfter e.mkL e.now 200 lt
+    | none => none
+  else none
+
+/-- the closure `midnight_plus` -/
+def midnightPlus (e : Env) (days : Int) : Out (Option Int) :=
+  bind (spanFixed days 86400) fun d =>
+    match d with
+    | none => .ok none
+    | some d =>
+      let lt := (e.L - e.L % 86400) + d
+      if DT_MIN ≤ lt ∧ lt ≤ DT_MAX then .ok (resolveAfter e.mkL e.now 200 lt) else .ok none
+
+/-- the closure `unit_start_plus`: `current + (span - elapsed - nanos)` on the UTC time line -/
+def unitStartPlus (e : Env) (count unitSecs elapsed : Int) : Out (Option Int) :=
+  bind (spanFixed count unitSecs) fun d =>
+    match d with
+    | none => .ok none
+    | some d =>
+      let t := e.now + (d - elapsed)
+      if DT_MIN ≤ t ∧ t ≤ DT_MAX then .ok (some t) else .ok none
+
+/-- `TimeTrigger::checked_next_time` of the repaired code -/
+def checkedNextFixed (c : Civil) (e : Env) (u : IUnit) (n : Int) (modulate : Bool) : Out (Option Int) :=
+  match u with
+  | .year =>
+    match incFixed n c.year modulate with
+    | none => .ok none
+    | some inc =>
+      if inI64 (inc + c.year) ∧ inI64 ((inc + c.year) * 12) then .ok (firstOfMonth e ((inc + c.year) * 12))
+      else .ok none
+  | .month =>
+    match incFixed n c.month0 modulate with
+    | none => .ok none
+    | some inc =>
+      if inI64 (inc + (c.year * 12 + c.month0)) then .ok (firstOfMonth e (inc + (c.year * 12 + c.month0)))
+      else .ok none
+  | .week =>
+    match incFixed n c.week0 modulate with
+    | none => .ok none
+    | some weeks =>
+      if inI64 (weeks * 7) ∧ inI64 (weeks * 7 - c.weekday) then midnightPlus e (weeks * 7 - c.weekday)
+      else .ok none
+  | .day =>
+    match incFixed n c.ordinal0 modulate with
+    | none => .ok none
+    | some inc => midnightPlus e inc
+  | .hour =>
+    match incFixed n c.hour modulate with
+    | none => .ok none
+    | some inc => unitStartPlus e inc 3600 (c.minute * 60 + c.second)
+  | .minute =>
+    match incFixed n c.minute modulate with
+    | none => .ok none
+    | some inc => unitStartPlus e inc 60 c.second
+  | .second =>
+    match incFixed n c.second modulate with
+    | none => .ok none
+    | some inc => unitStartPlus e inc 1 0
+
+/-- the repaired `get_next_time`: `checked_next_time(..).filter(|t| t > current).unwrap_or(never)` -/
+def getNextTimeFixed (c : Civil) (e : Env) (u : IUnit) (n : Int) (modulate : Bool) : Out Int :=
+  bind (checkedNextFixed c e u n modulate) fun r =>
+    match r with
+    | some t => if t > e.now then .ok t else .ok FAR
+    | none => .ok FAR
+
+/-- the local time the repaired code asks chrono to resolve (day/week: from `L`; month/year: the
+civil date whose naive seconds chrono supplies), for the correspondence of the harness' facts -/
+def targetCivilFixed (c : Civil) (u : IUnit) (n : Int) (modulate : Bool) : Option CivilTime :=
+  let months : Option Int := match u with
+    | .year => match incFixed n c.year modulate with
+      | some inc => if inI64 (inc + c.year) ∧ inI64 ((inc + c.year) * 12) then some ((inc + c.year) * 12) else none
+      | none => none
+    | .month => match incFixed n c.month0 modulate with
+      | some inc => if inI64 (inc + (c.year * 12 + c.month0)) then some (inc + (c.year * 12 + c.month0)) else none
+      | none => none
+    | _ => none
+  match months with
+  | some m => if I32_MIN ≤ m / 12 ∧ m / 12 ≤ I32_MAX then some ⟨m / 12, m % 12 + 1, 1, 0, 0, 0⟩ else none
+  | none => none
+
+/-- the repaired `TimeTrigger::new`: the delay is added only when it is representable -/
+def scheduleFixed (next : Out Int) (maxDelay delay : Int) : Out Int :=
+  bind next fun t =>
+    if maxDelay > 0 then
+      if delay ≤ I64_MAX then
+        bind (spanFixed delay 1) fun d =>
+          match d with
+          | some d => if DT_MIN ≤ t + d ∧ t + d ≤ DT_MAX then .ok (t + d) else .ok t
+          | none => .ok t
+      else .ok t
+    else .ok t
+
+/-- the repaired `Trigger::trigger`: a poisoned lock is recovered (`into_inner`), so a panic, if
+there were one, would not disable the trigger -/
+def stepFixed (st : TState) (now : Int) (resched : Out Int) : Out Bool × TState :=
+  match st with
+  | .poisoned => (.panic "poisoned", .poisoned)
+  | .live s =>
+    if now ≥ s then
+      match resched with
+      | .ok t => (.ok true, .live t)
+      | .err e => (.err e, .live s)
+      | .panic w => (.panic w, .live s)
+    else (.ok false, .live s)
+
+def runFixed (st : TState) : List (Int × Out Int) → List (Out Bool × TState)
+  | [] => []
+  | (now, r) :: rest =>
+    let (o, st') := stepFixed st now r
+    (o, st') :: runFixed st' rest
+
 /-- `RollingFileAppender::append` with a pre-process trigger: the policy runs before the record is
 encoded, so a firing trigger closes the current file first. Files as lists of record numbers,
 oldest first; the last one is the active file. A panicking trigger loses the record. -/
